@@ -215,6 +215,11 @@ pub broadcast axiom fn axiom_as_ref_vec(v: &Vec<u8>)
     ensures #[trigger] as_ref_view::<Vec<u8>>(v) == v@;
 pub broadcast axiom fn axiom_as_ref_ref<A>(a: &&A)
     ensures #[trigger] as_ref_view::<&A>(a) == as_ref_view::<A>(*a);
+pub broadcast axiom fn axiom_as_ref_slice(s: &[u8])
+    ensures #[trigger] as_ref_view::<[u8]>(s) == s@;
+/// std: the AsRef<[u8]> impls of [u8], Vec<u8> and of references to them are pure views of the value
+pub axiom fn axiom_as_ref_pinned_std()
+    ensures as_ref_pinned::<[u8], [u8]>(), as_ref_pinned::<Vec<u8>, [u8]>(), as_ref_pinned::<&[u8], [u8]>(), as_ref_pinned::<&Vec<u8>, [u8]>();
 pub assume_specification<T, A: core::alloc::Allocator> [<Vec<T, A> as AsRef<[T]>>::as_ref] (v: &Vec<T, A>) -> (r: &[T])
     ensures r@ == v@;
 } // verus!
